@@ -392,6 +392,23 @@ func (self *visitorUserNode) OnFloat64(v float64, n json.Number) error {
 		if err = self.p.WriteInt64(convertData); err != nil {
 			return err
 		}
+	// integers above MaxInt64 are reported as float64, convert the literal to keep them exact
+	case proto.Uint64Kind:
+		convertData, e := strconv.ParseUint(string(n), 10, 64)
+		if e != nil {
+			return newError(meta.ErrDismatchType, "param isn't uint64Type", e)
+		}
+		if err = self.p.WriteUint64(convertData); err != nil {
+			return err
+		}
+	case proto.Fixed64Kind:
+		convertData, e := strconv.ParseUint(string(n), 10, 64)
+		if e != nil {
+			return newError(meta.ErrDismatchType, "param isn't fixed64Type", e)
+		}
+		if err = self.p.WriteFixed64(convertData); err != nil {
+			return err
+		}
 	default:
 		return newError(meta.ErrDismatchType, "param isn't floatType", nil)
 	}
